@@ -644,6 +644,22 @@ func (v *Verifier) doCut(fr *Frame, st *State, cut *Cut, pos token.Pos) {
 	goal := v.asBool(v.evalSpec(fr, st, cut.Clause.Expr), pos)
 	v.reveal = saved
 	v.obligeNamed(fr, st, fmt.Sprintf("cut%d", cut.Ord), pos, goal, "intermediate assertion (revealed): "+cut.Clause.Text)
+	// abstraction point: forget the definitions of the named variables, keep only the cut
+	for _, name := range cut.Forget {
+		obj, _ := v.lookupByName(fr, name).(*types.Var)
+		cell := fr.vars[obj]
+		if obj == nil || cell == nil {
+			panic(unsupportedf(pos, "cut: forget %s: not a local variable here", name))
+		}
+		if _, boxed := st.vals[cell].(BoxedArr); boxed {
+			panic(unsupportedf(pos, "cut: forget %s: boxed array", name))
+		}
+		var wf []*Term
+		st.vals[cell] = v.eng.freshVal(cell.Sh, name+"@cut", &wf)
+		for _, w := range wf {
+			st.assume(w)
+		}
+	}
 	st.assume(v.asBool(v.evalSpec(fr, st, cut.Clause.Expr), pos))
 	fr.scopeAt = save
 }
